@@ -386,11 +386,9 @@ export class Env {
       case "Required": {
         const s = this.shapeOf(a[0]);
         if (!s || s.index) unsup("Required operand");
-        for (const p of s.props) {
-          // Required<> also strips `undefined` from optional members; only judge where that is a no-op
-          if (p.opt && this.mentionsNullish(p.t)) unsup("Required over nullable optional member");
-        }
-        return { c: "obj", props: s.props.map((p) => ({ ...p, opt: false })), index: null };
+        // `-?` takes `undefined` - and only `undefined`, not `null` - out of the type of a member that
+        // was optional (through aliases as well): Required<{ a?: string | undefined | null }> = { a: string | null }
+        return { c: "obj", props: s.props.map((p) => ({ ...p, t: p.opt ? this.withoutUndefined(p.t) : p.t, opt: false })), index: null };
       }
       case "Pick": {
         const s = this.shapeOf(a[0]);
@@ -431,6 +429,26 @@ export class Env {
     return unsup("utility " + t.name);
   }
 
+  withoutUndefined(t0) {
+    const t = this.resolve(t0);
+    if (t.c === "nullish") {
+      if (t.w === "undefined") return C.never ?? { c: "never" };
+      if (t.w === "null") return t0;
+      unsup("Required over a member of type void / computed nullish");
+    }
+    if (t.c !== "union") return t0;
+    const flat = [];
+    const walk = (x) => {
+      const r = this.resolve(x);
+      if (r.c === "union") r.ts.forEach(walk);
+      else flat.push([x, r]);
+    };
+    walk(t0);
+    if (!flat.some(([, r]) => r.c === "nullish" && r.w !== "null")) return t0;
+    if (flat.some(([, r]) => r.c === "nullish" && r.w !== "null" && r.w !== "undefined")) unsup("Required over a member of type void / computed nullish");
+    const rest = flat.filter(([, r]) => !(r.c === "nullish" && r.w === "undefined")).map(([, r]) => r);
+    return rest.length === 0 ? (C.never ?? { c: "never" }) : rest.length === 1 ? rest[0] : C.union(rest);
+  }
   mentionsNullish(t) {
     t = this.resolve(t);
     if (t.c === "nullish" || t.c === "any") return true;
